@@ -1,7 +1,7 @@
 """C11 - QUBO/PUBO export reproduces the objective on every binary assignment (refusals, key canonicity, no zero entries)."""
 from vx import core, v1types
 from vx.props import common
-from vx.units import evaluate as ev, qubo, fn_stubs
+from vx.units import evaluate as ev, qubo, fn_stubs, iters
 
 
 def types(asm):
@@ -51,15 +51,18 @@ pub open spec fn cfun(c: v1::Constraint) -> v1::Function { match c.function { So
     asm.file('spec/c12_spec.rs')
     asm.file('spec/validate_spec.rs')
     types(asm)
+    for sp in iters.ITER_SPECS:
+        asm.file(sp)
     asm.file('spec/qubo_spec.rs')
+    asm.raw(qubo.TERMS_LEMMAS, 'the term list of the proved iterator contract sums to the objective')
     asm.raw('} // mod lib\npub mod units {\n' + common.UNITS_USES + 'use super::lib::v1::instance::Sense;\nbroadcast use super::lib::ax_zero_f64, super::lib::ax_binary_ids_cmp, super::lib::ax_binary_id_pair_cmp;\n')
-    asm.raw(fn_stubs.ZERO + qubo.STUBS, 'assumed callee contracts')
+    asm.raw(fn_stubs.ZERO + iters.SORT_STUB + qubo.STUBS, 'assumed callee contracts')
     for n, where in (('Function::zero', 'C02'), ('Instance::binary_ids', 'assumed (iterator filter/collect)'),
                      ('Function::used_decision_variable_ids (C08)', 'C08 for Constant/Linear and the dispatch; the Quadratic/Polynomial collects are assumed there'),
-                     ('IntoIterator for &Function (term iterator)', 'assumed (Box<dyn Iterator>: outside the dialect; precondition fn_coo_ok); exercised by the bounded stand-in'),
+                     ('name_terms: the list the term iterator yields for a message is a function of the message (purity naming fterms)', 'assumed; everything else about the term iterators is proved here on the real code (same units as C02)'),
                      ('slice::sort_unstable + Vec::dedup (helper vec_sort_dedup)', 'std contract')):
         asm.stubs.append(dict(unit=n, proved_in=where))
-    for u in [ev.instance_objective(), qubo.binary_ids_from_sorted()] + qubo.binary_id_pair_try_from() + [qubo.as_pubo_format(), qubo.as_qubo_format()]:
+    for u in iters.iterator_units() + [ev.instance_objective(), qubo.binary_ids_from_sorted()] + qubo.binary_id_pair_try_from() + [qubo.as_pubo_format(), qubo.as_qubo_format()]:
         asm.unit(u)
     asm.raw('} // mod units\n')
     asm.guard(common.guard_fn('c11', 'broadcast use ax_zero_f64, ax_binary_ids_cmp, ax_binary_id_pair_cmp;', uses='use super::lib::*;'), 'vacuity: axioms')
@@ -69,17 +72,18 @@ proof fn vacuity_pre(i: v1::Instance) requires i.constraints.len() == 0, i.sense
 ''', 'vacuity: acceptance conditions')
     asm.guard('''pub mod guard_c11c { use vstd::prelude::*; use super::lib::*;
 proof fn vacuity_axioms(f: v1::Function, x: Map<u64, F64>, a: BinaryIds, b: BinaryIds, ids: Seq<u64>)
-    requires fn_fin(f), fterms(f).len() > 1, q_terms_ok(fterms(f), fterms(f).len() as int), forall|j: int| 0 <= j < fterms(f).len() ==> binary_on(x, (#[trigger] fterms(f)[j]).0.0@), a.0@ == b.0@, ids.len() > 2
-{ broadcast use ax_fterms_sum, ax_bkey, ax_binary_ids_ext, ax_zero_f64; lemma_qubo_value(fterms(f), fterms(f).len() as int, x); lemma_pubo_value(fterms(f), fterms(f).len() as int, x); assert(bkey(ids).0@ == ids.to_set()); assert(false); }
+    requires fn_fin(f), fn_coo_ok(f), fn_titems_ok(fterms(f), f), fterms(f).len() > 1, q_terms_ok(fterms(f), fterms(f).len() as int), forall|j: int| 0 <= j < fterms(f).len() ==> binary_on(x, (#[trigger] fterms(f)[j]).0.0@), a.0@ == b.0@, ids.len() > 2
+{ broadcast use ax_bkey, ax_binary_ids_ext, ax_zero_f64; lemma_fterms_sum(f, x); lemma_qubo_objective(f, x); lemma_pubo_objective(f, x); lemma_qubo_value(fterms(f), fterms(f).len() as int, x); lemma_pubo_value(fterms(f), fterms(f).len() as int, x); assert(bkey(ids).0@ == ids.to_set()); assert(false); }
 }
 ''', 'vacuity: term-list / key axioms and the premises of the value lemmas')
     asm.raw(common.FOOTER)
     return dict(
         min_items=6,
         trusted_base=common.TRUSTED_COMMON + common.T4_COLLECTIONS + [
-            'T5 ASSUMED callee contracts: the term iterator of &Function (sorted id tuples over the function ids), Instance::binary_ids, Function::used_decision_variable_ids, BinaryIdPair::try_from (slice patterns are outside Verus)',
+            'T5 ASSUMED callee contracts: Instance::binary_ids, Function::used_decision_variable_ids, BinaryIdPair::try_from (slice patterns are outside Verus)',
             'T4: BTreeMap::entry(k).and_modify(|v| *v += c).or_insert(c) as the helper btreemap_add_or_insert; BinaryIds / BinaryIdPair obey the BTreeMap key model; a BinaryIds value is determined by the set it holds (ax_binary_ids_ext, ax_bkey)',
-            'T5 ASSUMED: the term list of &Function is a function of the message whose terms sum to the polynomial (fterms, ax_fterms_sum)',
+            'T5 ASSUMED (purity naming only): the term list of &Function is a function of the message (fterms); that its terms sum to the polynomial, are finite, sorted and over the ids of the function is PROVED on the real iterators (lemma_fterms_sum replaces the former axiom)',
+            'R31: iterator pipelines instantiated at Vec (std helper contracts vec_refs / vec_map_collect / vec_chain / vec_once / vec_empty / vec_filter / range_map_collect / opt_into_vec); slice::sort_unstable as vec_sort_unstable',
         ],
         assumptions=common.A1 + common.A_COO,
         not_covered=['the size of the explicit remainders qrem / prem (terms skipped or entries removed because numerically zero)'],
